@@ -2110,3 +2110,44 @@ package crypto
 //@ assigns nothing
 //@ ensures [reject] (size < 2 || size > 254 || myIndex >= size || myIndex < 0 || threshold >= size || threshold < 1) ==> result0 == nil && iserr(result1, *invalidInputsError)
 //@ ensures [accept] !(size < 2 || size > 254 || myIndex >= size || myIndex < 0 || threshold >= size || threshold < 1 || processor == nil) ==> result1 == nil && typeis(result0, *JointFeldmanState) && fresh(unbox(result0, *JointFeldmanState)) && jfInv(unbox(result0, *JointFeldmanState)) && !unbox(result0, *JointFeldmanState).jointRunning && !unbox(result0, *JointFeldmanState).running
+
+// ---- error-class predicates of the public API (what callers observe): errors.As / errors.Is have their class semantics (assumed)
+//@ func IsInvalidInputsError mode int props C10 C05 C09
+//@ assigns nothing
+//@ ensures result == iserr(err, *invalidInputsError)
+
+//@ func IsDKGInvalidStateTransitionError mode int props C10 C09
+//@ assigns nothing
+//@ ensures result == iserr(err, *dkgInvalidStateTransitionError)
+
+//@ func IsDKGFailureError mode int props C10 C07 C09
+//@ assigns nothing
+//@ ensures result == iserr(err, *dkgFailureError)
+
+//@ func IsInvalidHasherSizeError mode int props C11 C09
+//@ assigns nothing
+//@ ensures result == iserr(err, *invalidHasherSizeError)
+
+//@ func IsDuplicatedSignerError mode int props C18 C09
+//@ assigns nothing
+//@ ensures result == iserr(err, *duplicatedSignerError)
+
+//@ func IsNotEnoughSharesError mode int props C18 C06 C09
+//@ assigns nothing
+//@ ensures result == iserr(err, *notEnoughSharesError)
+
+//@ func IsNilHasherError mode int props C11 C09
+//@ assigns nothing
+//@ ensures result == iserr(err, errNilHasher)
+
+//@ func IsBLSAggregateEmptyListError mode int props C04 C09
+//@ assigns nothing
+//@ ensures result == iserr(err, errBLSAggregateEmptyList)
+
+//@ func IsNotBLSKeyError mode int props C04 C09
+//@ assigns nothing
+//@ ensures result == iserr(err, errNotBLSKey)
+
+//@ func IsInvalidSignatureError mode int props C04 C05 C09
+//@ assigns nothing
+//@ ensures result == iserr(err, errInvalidSignature)
